@@ -288,9 +288,8 @@ func TestC04_History(t *testing.T) {
 	ev.Floor("iter:both-sides", "iter", 0.15)
 	ev.Floor("iter:first-is-tombstone", "iter", 0.01)
 	ev.Floor("step:commit:nonempty", "step:commit", 0.3)
-	harn.CheckSteps(t, 40, 1500, 40000, func(t *rapid.T) {
-		w := &c04World{store: leveldbstore.NewMemLevelDBStore(), persist: layer{}, ov: layer{}, ca: layer{}, ev: ev}
-		defer w.store.Close()
+	harn.CheckSteps(t, 40, 1500, 30000, func(t *rapid.T) {
+		w := &c04World{store: freshStore(), persist: layer{}, ov: layer{}, ca: layer{}, ev: ev}
 		for i, n := 0, rapid.IntRange(0, 8).Draw(t, "npre"); i < n; i++ {
 			k, v := genKey(c04MaxKey).Draw(t, "prek"), genVal.Draw(t, "prev")
 			if err := w.store.Put(storageKey(k), v); err != nil {
@@ -329,9 +328,8 @@ func TestC04_LayeredSnapshot(t *testing.T) {
 	ev.Floor("snap-iter:first-is-tombstone", "snap-iter", 0.02)
 	ev.Floor("snap-iter:mem-exhausted-first", "snap-iter", 0.05)
 	ev.Floor("snap-iter:backend-exhausted-first", "snap-iter", 0.05)
-	harn.Check(t, 1500, 60000, func(t *rapid.T) {
-		w := &c04World{store: leveldbstore.NewMemLevelDBStore(), persist: layer{}, ov: layer{}, ca: layer{}, ev: ev}
-		defer w.store.Close()
+	harn.Check(t, 1500, 45000, func(t *rapid.T) {
+		w := &c04World{store: freshStore(), persist: layer{}, ov: layer{}, ca: layer{}, ev: ev}
 		w.overlay = overlaydb.NewOverlayDB(w.store)
 		w.cache = storage.NewCacheDB(w.overlay)
 		universe := map[string]bool{}
